@@ -264,18 +264,54 @@ func checkC05(c *Ctx) {
 	ikey := FuncKey(indexer)
 	// type switch on @type: TypeAsserts (comma-ok) on the value looked up under "@type"
 	hasString, hasArray := false, false
-	for _, ifn := range samePkgReach(p, indexer) {
+	// the values that hold a node's @type: the lookup under "@type", and the parameters of package functions it is handed to
+	typeVals := map[ssa.Value]bool{}
+	reachFns := samePkgReach(p, indexer)
+	for round := 0; round < 4; round++ {
+		for _, ifn := range reachFns {
+			for _, b := range ifn.Blocks {
+				for _, ins := range b.Instrs {
+					switch x := ins.(type) {
+					case *ssa.Lookup:
+						if kc, ok := x.Index.(*ssa.Const); ok && kc.Value != nil && kc.Value.ExactString() == `"@type"` {
+							typeVals[x] = true
+						}
+					case *ssa.Extract:
+						if typeVals[x.Tuple] && x.Index == 0 {
+							typeVals[x] = true
+						}
+					case *ssa.MakeInterface:
+						if typeVals[x.X] {
+							typeVals[x] = true
+						}
+					case *ssa.ChangeInterface:
+						if typeVals[x.X] {
+							typeVals[x] = true
+						}
+					case *ssa.Phi:
+						for _, e := range x.Edges {
+							if typeVals[e] {
+								typeVals[x] = true
+							}
+						}
+					case *ssa.Call:
+						if callee := x.Call.StaticCallee(); callee != nil && IsModuleFunc(callee) && len(callee.Params) == len(x.Call.Args) {
+							for i, a := range x.Call.Args {
+								if typeVals[a] {
+									typeVals[callee.Params[i]] = true
+								}
+							}
+						}
+					}
+				}
+			}
+		}
+	}
+	for _, ifn := range reachFns {
 		for _, b := range ifn.Blocks {
 			for _, ins := range b.Instrs {
 				ta, ok := ins.(*ssa.TypeAssert)
-				if !ok {
-					continue
-				}
-				lk, ok := ta.X.(*ssa.Lookup)
-				if !ok {
-					continue
-				}
-				if kc, ok := lk.Index.(*ssa.Const); !ok || kc.Value == nil || kc.Value.ExactString() != `"@type"` {
+				if !ok || !typeVals[ta.X] {
 					continue
 				}
 				switch u := ta.AssertedType.Underlying().(type) {
